@@ -70,11 +70,17 @@ def gen_case(rng, i):
                 "tf": ["step", rng.randint(1, 4)], "obs": rng.choice(["box1", "box2", "disc"]), "act": "discrete" if algo == "DQN" else "box_asym", "noise": None, "sde": False,
                 "sde_warmup": False, "learning_starts": rng.choice([0, 1000]), "vecnorm": False, "calls": calls, "seed": rng.randint(0, 10**6),
                 "scripts": [se.gen_script(rng, max_len=5, tag_base=1000 * e, p_both=0.2, p_trunc=0.4) for e in range(n_envs)]}
-    return {"id": i, "buffer_size": 120 if her else rng.choice([120, 120, rng.randint(2, 30)]), "her": her, "sde_freq": rng.choice([-1, 1, 2, 3]), "algo": algo, "n_envs": n_envs, "tf": tf, "obs": obs,
+    if i % 7 == 3 and obs in ("box1", "box2", "dictc"):
+        # VecNormalize with several learn() calls that reset the env: the raw observation kept for the buffer must be refreshed at every reset
+        calls = [{"total": rng.randint(2, 12), "reset": True}, {"total": rng.randint(2, 12), "reset": True}] + ([{"total": rng.randint(2, 8), "reset": rng.random() < 0.5}] if rng.random() < 0.5 else [])
+        force_vn = True
+    else:
+        force_vn = False
+    return {"id": i, "force_vn": force_vn, "buffer_size": 120 if her else rng.choice([120, 120, rng.randint(2, 30)]), "her": her, "sde_freq": rng.choice([-1, 1, 2, 3]), "algo": algo, "n_envs": n_envs, "tf": tf, "obs": obs,
             "act": "discrete" if algo == "DQN" else rng.choice(["box", "box_asym", "box_asym"]),
             "noise": None if algo == "DQN" else rng.choice([None, "normal", "normal", "vec"]),
             "sde": algo == "SAC" and rng.random() < 0.3, "sde_warmup": rng.random() < 0.5,
-            "learning_starts": 1000 if her else rng.choice([0, 4, 9, 1000]), "vecnorm": rng.random() < 0.2 and obs in ("box1", "box2", "dictc"), "tf_int": rng.random() < 0.3,
+            "learning_starts": 1000 if her else rng.choice([0, 4, 9, 1000]), "vecnorm": (force_vn or rng.random() < 0.2) and obs in ("box1", "box2", "dictc") and not her, "tf_int": rng.random() < 0.3,
             "calls": calls, "seed": rng.randint(0, 10**6),
             "scripts": [se.gen_script(rng, max_len=5, tag_base=1000 * e, tag_cap=250 if obs == "image" else se.MAXTAG - 1, p_both=0.2, p_trunc=0.4) for e in range(n_envs)]}
 
@@ -718,6 +724,18 @@ def nontrivial(case, impl):
     return (False, True) in flags and (True, False) in flags and len(impl.get("adds", [])) >= 6
 
 
+def oracle_first(cases, impls, results):
+    """reporting order: cases whose statement-level oracle fails (concrete input) before cases where only model and implementation
+    disagree, so that the cap on reported violations never hides a concrete input behind a model-correspondence line"""
+    def rank(i):
+        pr = results[i] or []
+        if any(not sg.startswith("model-correspondence-") and sg != "impl-exception" for sg, _ in pr):
+            return 0
+        return 1 if pr else 2
+    order = sorted(range(len(cases)), key=rank)
+    return [(cases[i], impls[i], results[i]) for i in order]
+
+
 def main():
     chk = Check("C04", groups=["offpolicy", "onpolicy"])
     chk.build_props()
@@ -732,7 +750,7 @@ def main():
     impls, results = run_cases(chk, cases)
     distinct = set()
     hist = {"algo": {}, "obs": {}, "act": {}, "noise": {}, "tf": {}, "n_envs": {}, "vecnorm": 0, "sde": 0, "adds": 0, "done_adds": 0, "both_flag_steps": 0, "warmup_and_policy_runs": 0}
-    for c, im, probs in zip(cases, impls, results):
+    for c, im, probs in oracle_first(cases, impls, results):
         for k in ("algo", "obs", "act", "noise", "n_envs"):
             hist[k][str(c[k])] = hist[k].get(str(c[k]), 0) + 1
         hist["tf"][c["tf"][0]] = hist["tf"].get(c["tf"][0], 0) + 1
